@@ -107,6 +107,19 @@ EvSetSchema ==
 EvDispose ==
   /\ Line.ev = "dispose" /\ Dispose /\ UNCHANGED <<viol, drift, nsc>>
 
+(* the scenario never came back: a mutation or a subscription call is blocked *)
+(* for good (watchdog of the driver, 90 s for a scenario that takes ms)       *)
+EvHung ==
+  /\ Line.ev = "hung"
+  /\ viol' = viol \cup {<<l, "machine-stuck">>}
+  /\ UNCHANGED <<vars, drift, nsc>>
+
+(* the mutation call itself panicked (processing the subscriptions)           *)
+EvMutatorPanic ==
+  /\ Line.ev = "mutator-panic"
+  /\ viol' = viol \cup {<<l, "mutation-panics">>}
+  /\ UNCHANGED <<vars, drift, nsc>>
+
 (* the probe: compare with the bookkeeping (drift) and with the property      *)
 (* (viol).  Inside the window (phase = "applied") the property makes no       *)
 (* demand yet - only "never closes while it has not held".                    *)
@@ -145,7 +158,7 @@ Done ==
 TraceNext ==
   \/ /\ l <= Len(Trace)
      /\ (EvScenario \/ EvSub \/ EvSctx \/ EvCancel \/ EvApply \/ EvProcess \/ EvSetSchema
-         \/ EvDispose \/ EvProbe)
+         \/ EvDispose \/ EvProbe \/ EvHung \/ EvMutatorPanic)
      /\ l' = l + 1
   \/ (Done /\ l' = l + 1)
 
